@@ -35,6 +35,9 @@ def detection_bound_intervals(n: int) -> int:
     return 3 * n + 10
 
 
+HORIZON_MULT = 3  # an undetected stop is followed until t + 3B to tell "late" from "not at all"
+
+
 RULE = (
     "Clusters of 3-10 real MembershipProtocol nodes (probe interval 0.1-10 s, suspicion timeout 0.25-12 probe "
     "intervals, indirect-probe count 0-5, phi threshold 1-12, per-node start offsets, global `random` seeded per "
@@ -361,8 +364,10 @@ class _Monitor:
         self.late_samples = 0
         self.bound_ns = None
         self.flagged: set = set()
-        self.state_vectors: set = set()
-        self.paused_now: set = set()
+        self.net = None  # set by the harness: direct probes are counted where they enter the network
+        self.probes_after_stop = [0] * self.n  # direct pings observer -> stopped member sent after the stop
+        self.settle_ns = None  # bound + 3 intervals: earliest instant at which a fully detected run may end
+        self.control = None
 
     # -- wire content of the event just delivered --------------------------
     def _wire(self, ev):
@@ -402,6 +407,18 @@ class _Monitor:
                         sd.extend(i for _, i in lst)
         else:
             wire = None
+        if (
+            self.stopped is not None
+            and ev.target is self.net
+            and ev.event_type == "MembershipPing"
+            and type(ev).__name__ == "Event"
+            and t >= self.stop_ns
+        ):
+            md = ev.context.get("metadata", {})
+            if md.get("destination") == self.names[self.stopped] and "indirect_for" not in md:
+                src = md.get("source")
+                if src in self.names:
+                    self.probes_after_stop[self.names.index(src)] += 1
         late = self.bound_ns is not None and t > self.bound_ns
         for yi, y in enumerate(self.nodes):
             row = self.cur[yi]
@@ -420,6 +437,12 @@ class _Monitor:
         self.samples += self.n * (len(self.member_names) - 1)
         if late:
             self.late_samples += 1
+            if t > self.settle_ns and self.control is not None:
+                A = MS.ALIVE
+                xs = self.stopped
+                if all(self.cur[yi][xs] is not A for yi in range(self.n) if yi != xs):
+                    self.control.pause()  # every live view has left ALIVE and stayed so for 3 intervals past B
+                    self.control = None
 
     def _transition(self, yi, xi, old, new, t, ev, wire):
         MS = self.MS
@@ -529,7 +552,7 @@ def _run_cluster(case: dict, *, check_false_death: bool, check_detection: bool) 
     stop = case.get("stop")
     B = detection_bound_intervals(n)
     if stop is not None:
-        end_s = stop["at"] + (B + 3) * pi
+        end_s = stop["at"] + (HORIZON_MULT * B + 3) * pi  # the monitor ends the run earlier once everybody detected
     else:
         end_s = case["rounds"] * pi
 
@@ -596,8 +619,11 @@ def _run_cluster(case: dict, *, check_false_death: bool, check_detection: bool) 
         stopped=stop["member"] if stop is not None else None,
         stop_ns=stop_ns,
     )
+    mon.net = net
     if stop is not None:
         mon.bound_ns = Instant.from_seconds(stop["at"] + B * pi).nanoseconds
+        mon.settle_ns = Instant.from_seconds(stop["at"] + (B + 3) * pi).nanoseconds
+        mon.control = sim.control
     sim.control.on_event(mon.on_event)
     with EngineProbe(log_deliveries=False, instant_cap=20000, total_cap=1_500_000, record_emissions=False) as p:
         status = p.run(sim)
@@ -643,6 +669,7 @@ def _detection_oracle(case, mon: _Monitor, nodes, res: Result, B: int, end_s: fl
     pi = case["probe_interval"]
     xi = stop["member"]
     xname = nodes[xi].name
+    MS = mon.MS
     res.count("late_samples_after_bound", mon.late_samples)
     if mon.late_samples == 0:
         res.inconclusive = "no sample later than the detection bound"
@@ -657,13 +684,20 @@ def _detection_oracle(case, mon: _Monitor, nodes, res: Result, B: int, end_s: fl
             det = 0.0  # never reported ALIVE at any sample (suspected before the stop and never heard again)
         else:
             det = max(0.0, (la - mon.stop_ns) / 1e9 / pi)
+        worst = max(worst, det)
         if la is not None and la > mon.bound_ns:
             heard = mon.heard_ns[yi][xi]
-            shape = (
-                "observer-never-received-a-ping-or-ack-from-the-stopped-member"
-                if heard is None
-                else "observer-had-received-messages-from-the-stopped-member"
-            )
+            still = mon.cur[yi][xi] is MS.ALIVE  # at the last sample, i.e. at the 3B horizon
+            probes = mon.probes_after_stop[yi]
+            if heard is None:
+                shape = "observer-never-received-a-ping-or-ack-from-the-stopped-member"
+            else:
+                shape = (
+                    "observer-had-received-messages-from-the-stopped-member/"
+                    + ("its-direct-probes-after-the-stop-went-unanswered/" if probes else "it-sent-no-direct-probe-after-the-stop/")
+                    + (f"still-alive-at-{HORIZON_MULT}B" if still else f"detected-late-between-B-and-{HORIZON_MULT}B")
+                )
+            res.count("views_still_alive_at_horizon" if still else "views_detected_late_after_bound")
             key = ("detect", shape)
             if key not in mon.flagged:
                 mon.flagged.add(key)
@@ -673,8 +707,10 @@ def _detection_oracle(case, mon: _Monitor, nodes, res: Result, B: int, end_s: fl
                     shape,
                     detail=(
                         f"{xname} stopped for good ({stop['mode']}) at t={stop['at']}s; {y.name} still reports it ALIVE at "
-                        f"t={la / 1e9:.6f}s = stop + {det:.1f} probe intervals (> B = {B}); final state {y.get_member_state(xname).name}; "
-                        f"first message from {xname} delivered to {y.name}: {'never' if heard is None else f'{heard / 1e9:.6f}s'}"
+                        f"t={la / 1e9:.6f}s = stop + {det:.1f} probe intervals (> B = {B}); state at the end of the run "
+                        f"({HORIZON_MULT}B horizon unless everybody detected earlier) {y.get_member_state(xname).name}; first message from "
+                        f"{xname} delivered to {y.name}: {'never' if heard is None else f'{heard / 1e9:.6f}s'}; direct probes "
+                        f"{y.name}->{xname} sent after the stop: {probes}"
                     ),
                     witness={
                         "stopped": xname,
@@ -682,17 +718,18 @@ def _detection_oracle(case, mon: _Monitor, nodes, res: Result, B: int, end_s: fl
                         "stop_s": stop["at"],
                         "observer": y.name,
                         "last_alive_report_s": la / 1e9,
+                        "last_alive_report_intervals_after_stop": round(det, 2),
                         "bound_intervals": B,
+                        "direct_probes_after_stop": probes,
                         "final_views_of_stopped": {nd.name: nd.get_member_state(xname).name for i, nd in enumerate(nodes) if i != xi},
                     },
                 )
             res.count("views_undetected_after_bound")
         else:
             res.count("views_detected_within_bound")
-            worst = max(worst, det)
             b = min(9, int(10 * det / B))
             res.count(f"detection_time_{b * 10:02d}_to_{b * 10 + 10}_pct_of_B")
-    res.seen("max_detection_intervals_rounded", int(math.ceil(worst)))
+    res.seen("max_last_alive_report_intervals_after_stop", int(math.ceil(worst)))
 
 
 def run_healthy(case: dict) -> Result:
